@@ -205,9 +205,9 @@ PathFrom(node, i, items, f, st) ==
                  ELSE PathFrom(node, i + 1, its, f, R.st)
 
 \* "a path that starts with $, $$ or a variable is anchored ... instead of mapping over it": the variable may carry any
-\* number of predicates and order-by operators (they belong to the step)
+\* number of predicates, order-by operators and a grouping (they belong to the step: $v{k: x}.m starts with $v)
 RECURSIVE VarHead(_)
-VarHead(n) == n.k = "Variable" \/ (n.k \in {"Predicate", "Sort"} /\ VarHead(n.e))
+VarHead(n) == n.k = "Variable" \/ (n.k \in {"Predicate", "Sort", "Group"} /\ VarHead(n.e))
 
 EvalPath(node, ctx, f, st) ==
     LET s1    == node.steps[1]
